@@ -335,6 +335,65 @@ def runJobsL (cfg : Cfg) (plan : Plan) : Nat → Links → Fs → List Job → O
       (r'.1, r.2 ++ r'.2)
     | o => (o, r.2)
 
+/-! ### `files_in_to_out`: what the `out` option means
+
+  The step hands `root_dict.get('out', None)` — after formatting, so `out: '{outDir}'` with
+  `outDir == ''` arrives as `''` — to `FileRewriter.files_in_to_out(in_path, out_path)`. The tests are
+  TRUTHINESS tests (`if out_path:`), in `files_in_to_out` and again in both `in_to_out`s: an absent out,
+  `None` and `''` all mean "no out: edit every in file in place". -/
+
+/-- How `files_in_to_out` reads its `out_path` argument. -/
+inductive OutPlan where
+  | inplace                 -- `if out_path:` is false (absent, None, ''): `in_to_out(in_path=actual_in)`
+  | intoDir (d : String)    -- ends with the separator (`mkdir -p`) or is an existing directory:
+                            -- `actual_out = basedir_out.joinpath(actual_in.name)`
+  | toFile (f : String)     -- anything else: one destination file (`is_outfile_name_known`)
+  | tooMany                 -- … which is `raise Error(…)` when `in` resolved to more than one path
+  deriving DecidableEq, Repr, Inhabited
+
+/-- `FileRewriter.is_str_dir` on posix: `s.endswith(os.sep)`. -/
+def endsWithSep (s : String) : Bool := s.toList.getLast? == some '/'
+
+/-- The `if out_path:` ladder at the top of `files_in_to_out`. `isDir` = `Path(out_path).is_dir()`
+    (a fact about the file system, supplied), `nIn` = `len(in_paths)`. -/
+def planOut (out : Option String) (isDir : Bool) (nIn : Nat) : OutPlan :=
+  match out with
+  | none => .inplace
+  | some o =>
+    if o = "" then .inplace
+    else if endsWithSep o then .intoDir o
+    else if isDir then .intoDir o
+    else if nIn > 1 then .tooMany
+    else .toFile o
+
+/-- `Path(p).name`. -/
+def baseName (p : String) : String :=
+  String.ofList (p.toList.reverse.takeWhile (· != '/')).reverse
+
+/-- The spelling of `basedir_out.joinpath(name)` the link table is keyed by: trailing separators of
+    the directory dropped (`Path()` strips them), an empty rest written `.`. -/
+def joinDir (d name : String) : String :=
+  let d' := (d.toList.reverse.dropWhile (· == '/')).reverse
+  String.ofList ((if d'.isEmpty then ['.'] else d') ++ '/' :: name.toList)
+
+/-- The `out_path` handed to `in_to_out` for the in file `src`. -/
+def OutPlan.outFor (p : OutPlan) (src : String) : Option String :=
+  match p with
+  | .inplace => none
+  | .intoDir d => some (joinDir d (baseName src))
+  | .toFile f => some f
+  | .tooMany => none
+
+def Job.withOut (p : OutPlan) (j : Job) : Job := { j with out := p.outFor j.src }
+
+/-- `files_in_to_out(in_path, out_path)` over the matched files `J` (their own `out` fields are
+    ignored: the plan decides). The multi-file-to-one-file error is raised before anything is opened. -/
+def runFiles (cfg : Cfg) (plan : Plan) (i : Nat) (l : Links) (fs : Fs)
+    (out : Option String) (isDir : Bool) (nIn : Nat) (J : List Job) : Outcome × Trace :=
+  match planOut out isDir nIn with
+  | .tooMany => (.raised i, [])
+  | p => runJobsL cfg plan i l fs (J.map (Job.withOut p))
+
 /-- Body of a StreamRewriter run over the given output chunks (one per line). -/
 def streamBody : Nat → List String → List Op
   | _, [] => []
